@@ -2959,7 +2959,7 @@ func (pc *PeerConnection) generateUnmatchedSDP(
 
 		if pc.configuration.AlwaysNegotiateDataChannels || pc.sctpTransport.dataChannelsRequested != 0 {
 			mediaSections = append(mediaSections, mediaSection{
-				id:       strconv.Itoa(len(mediaSections)),
+				id:       strconv.Itoa(pc.greaterMid + 1),
 				data:     true,
 				sctpInit: localSctpInit,
 			})
@@ -3138,7 +3138,7 @@ func (pc *PeerConnection) generateMatchedSDP(
 					localSctpInit = pc.sctpTransport.GetSctpInit()
 				}
 				mediaSections = append(mediaSections, mediaSection{
-					id:       strconv.Itoa(len(mediaSections)),
+					id:       strconv.Itoa(pc.greaterMid + 1),
 					data:     true,
 					sctpInit: localSctpInit,
 				})
